@@ -93,7 +93,7 @@ theorem tdinv_nodeAct {par : List Nat} {cfg} {s s' : State} {i : Nat} {a : NAct}
     unfold DPair at hp ⊢
     rcases hce with e | ⟨ha, e, _⟩ | ⟨ha, e, _, _, _, _, hndd, _⟩ | ⟨ha, e⟩ | ⟨ha, e, hrd⟩
     · -- untouched … unless the acting node is leaving (then every child edge is closed: the CE is the last case)
-      obtain ⟨e, hne⟩ := e
+      obtain ⟨e, hne, _⟩ := e
       subst e
       refine ⟨hDx, ?_⟩
       rcases sp.acting with e' | ⟨_, e', _⟩ <;> rw [e']
